@@ -316,7 +316,7 @@ CORPUS_TEXT = [
     ["A Q4 c:1"], ["A q5 s-30 c"], ["A s-30 c"], ["A l:0 q1 c"], ["A Q1 c64"],
     # D12
     ["*"], ["A ~"], ["A o4 l4 cdefgab >c ~"], ["A ~r4"], ["A ~1"], ["A D1 ~"], ["A o4 l4 cdefgab D1 ~"], ["* c"], ["*-1 c"], ["*x c"],
-    # numbers at the ends of int: signed overflow (undefined behaviour) before fixes a16b488 / a22a11c, ordinary wrapping cases since
+    # numbers at the ends of int: signed overflow (undefined behaviour) before fixes 299434d / bc95701, ordinary wrapping cases since
     ["A o2147483648 c"], ["A o-2147483647 < c"], ["A o200000000 c"], ["A (2147483648"], ["A c:2147483647."], ["A o2147483647 c"],
     ["c:2147483647."], ["(2147483648"], ["o-2147483648"], ["o2147483647 c"], ["o-2147483647 <"], ["o2147483647 >>"],
     ["A o-2147483648"], ["A o-2147483648 c"], ["A o-2147483647 <"], ["A o-2147483647 < < c"], ["A o2147483647 >>"], ["A o2147483647 >> c"],
@@ -471,7 +471,7 @@ def cases(rng, tier):
                      "-9223372036854775809", "$ffffffff", "$100000004", "00000000000000000000004"]:
         for pre in ["A c", "A c:", "A o", "A l", "A v", "A ]", "A s", "A (", "*", "A *", "A \\=", "A \\=1,", "A q", "A Q"]:
             yield Case(text_case([pre + spelling + " d"]), ("exh-number", "number-spelling"), "exh-number")
-    # numbers at the ends of int in every place the reader computes with them (wrap since fixes a16b488 / a22a11c)
+    # numbers at the ends of int in every place the reader computes with them (wrap since fixes 299434d / bc95701)
     for v in [2147483647, 2147483646, 2147483648, -2147483648, -2147483647, -2147483649, 1073741824, 1073741823, -1073741824, 715827883, 178956971, 178956970,
               -178956971, 357913942, 4294967295, 4294967296, 65536, 65535, 32768, -32768, -32769]:
         for hexv in (False, True):
